@@ -617,7 +617,10 @@ func propTable() map[string]*PropSpec {
 		tn := mkN(1, 2)
 		tn.Name += "/trailing=4"
 		tn.Params = map[string]int{"sym": 1, "prepares": 2, "trailing": 4}
-		q := []RunConfig{tv, tn, mkV(2, 1), mkV(3, 2), mkN(1, -1), mkN(1, 2), mkP(2), mkP(1), mkX(0, 3), mkX(3, 0), mkX(0, 2)}
+		tn0 := mkN(1, -1)
+		tn0.Name += "/trailing=4"
+		tn0.Params = map[string]int{"sym": 1, "prepares": -1, "trailing": 4}
+		q := []RunConfig{tv, tn, tn0, mkV(2, 1), mkV(3, 2), mkN(1, -1), mkN(1, 2), mkP(2), mkP(1), mkX(0, 3), mkX(3, 0), mkX(0, 2)}
 		th := append([]RunConfig{}, q...)
 		th = append(th, mkV(3, 1), mkV(2, 2), mkN(0, -1), mkN(2, -1), mkN(1, 0), mkN(1, 3), mkN(2, 2), mkP(3), mkX(2, 0), mkX(2, 3), mkX(3, 2))
 		for _, me := range []int{0, 1, 2} {
